@@ -111,13 +111,14 @@ def endpoint_pull(src, flow, length, T):
 
 
 def destination_clamped(src, flow, length, T, tol=1e-4):
-    """Was the drawn destination src+flow clamped onto (or numerically indistinguishable
-    from) the first / last valid frame?  `tol` pixels, widened to the resolution at which
-    the eps-pinned end knot can still be told apart from the destination (eps*T*T/… see
-    endpoint_pull: a pull of half a frame needs delta < 2 e (length-1)).
+    """Was the drawn destination src+flow clamped onto the first / last valid frame, or does
+    it lie so close to it that the eps-pinned end knot cannot be told apart from it?
+    `tol` pixels (DESIGN: 1e-4), widened to the distance below which the pinned end knot,
+    sitting e = eps*T/2 pixels outside the end frame, no longer holds that frame within half
+    a pixel (see endpoint_pull: a pull of half a frame needs delta < 2 e |source - end|;
+    this only exceeds `tol` for T of several hundred frames).
     Returns (at_first, at_last)."""
     s, d, raw = clamped_pixels(src, flow, length)
     e = EPS32 * T / 2.0
     L1 = float(length) - 1.0
-    lim = max(tol, 2.0 * e * max(L1, 1.0) * 2.0)
-    return (raw <= lim), (raw >= L1 - lim)
+    return (raw <= max(tol, 2.0 * e * s)), (raw >= L1 - max(tol, 2.0 * e * (L1 - s)))
